@@ -210,4 +210,190 @@ theorem mapExtents_all_pages (all : List Extent) (hw : WF all) (slots : Nat) (hs
       rw [List.dropWhile_cons_of_neg (by simp; omega)]
   · omega
 
+/-! ### the SEEK_DATA / SEEK_HOLE segment loop -/
+
+/-- one step of the loop: the segment lies in `[pos, len]`, ends strictly after `pos`, and only zeros
+are skipped before it -/
+theorem nss_spec {s : SeekOracle} {src : Bytes} (hl : SeekLegal s src) {pos : Nat}
+    (hp : pos < src.length) :
+    pos ≤ (nextSparseSegments s src.length pos).1 ∧
+    (nextSparseSegments s src.length pos).1 ≤ (nextSparseSegments s src.length pos).2 ∧
+    (nextSparseSegments s src.length pos).2 ≤ src.length ∧
+    pos < (nextSparseSegments s src.length pos).2 ∧
+    ∀ i, pos ≤ i → i < (nextSparseSegments s src.length pos).1 → ZeroAt src i := by
+  unfold nextSparseSegments
+  cases hd : s.data pos with
+  | none =>
+    have he := hl.hole_eof src.length (Nat.le_refl _)
+    simp only [he]
+    exact ⟨by omega, by omega, by omega, hp, fun i h1 _ => hl.data_none pos hp hd i h1⟩
+  | some d =>
+    obtain ⟨h1, h2, h3⟩ := hl.data_some pos d hp hd
+    simp only
+    cases hh : s.hole d with
+    | none => exact ⟨h1, by simp; omega, by simp, by simp; omega, h3⟩
+    | some h =>
+      obtain ⟨h4, h5⟩ := hl.hole_some pos d h hp hd hh
+      exact ⟨h1, by simp; omega, by simpa using h5, by simp; omega, h3⟩
+
+theorem segmentsOf_ordered {s : SeekOracle} {src : Bytes} (hl : SeekLegal s src) :
+    ∀ (fuel pos : Nat),
+      List.Pairwise (fun a b => a.2 ≤ b.1) (segmentsOf s src.length fuel pos) ∧
+      ∀ seg ∈ segmentsOf s src.length fuel pos, pos ≤ seg.1 ∧ seg.1 ≤ seg.2 ∧ seg.2 ≤ src.length := by
+  intro fuel
+  induction fuel with
+  | zero => intro pos; simp [segmentsOf]
+  | succ f ih =>
+    intro pos
+    unfold segmentsOf
+    split
+    · rename_i hp
+      obtain ⟨h1, h2, h3, h4, _⟩ := nss_spec hl hp
+      obtain ⟨ih1, ih2⟩ := ih (nextSparseSegments s src.length pos).2
+      simp only [List.pairwise_cons, List.mem_cons]
+      refine ⟨⟨fun b hb => (ih2 b hb).1, ih1⟩, ?_⟩
+      intro seg hseg
+      rcases hseg with rfl | hseg
+      · exact ⟨h1, h2, h3⟩
+      · have := ih2 seg hseg
+        exact ⟨by omega, this.2.1, this.2.2⟩
+    · simp
+
+theorem segmentsOf_cover {s : SeekOracle} {src : Bytes} (hl : SeekLegal s src) (i : Nat)
+    (hi : i < src.length) (hnz : src[i]? ≠ some 0) :
+    ∀ (fuel pos : Nat), pos ≤ i → src.length - pos + 1 ≤ fuel →
+      ∃ seg ∈ segmentsOf s src.length fuel pos, seg.1 ≤ i ∧ i < seg.2 := by
+  intro fuel
+  induction fuel with
+  | zero => intro pos _ h; omega
+  | succ f ih =>
+    intro pos hpi hfuel
+    have hp : pos < src.length := by omega
+    unfold segmentsOf
+    rw [if_pos hp]
+    obtain ⟨h1, h2, h3, h4, h5⟩ := nss_spec hl hp
+    have hge : (nextSparseSegments s src.length pos).1 ≤ i := by
+      apply Nat.le_of_not_lt
+      intro hlt
+      rcases h5 i hpi hlt with hz | hz
+      · exact hnz hz
+      · omega
+    by_cases hin : i < (nextSparseSegments s src.length pos).2
+    · exact ⟨_, List.mem_cons_self, hge, hin⟩
+    · obtain ⟨seg, hseg, hc⟩ := ih (nextSparseSegments s src.length pos).2 (by omega) (by omega)
+      exact ⟨seg, List.mem_cons_of_mem _ hseg, hc⟩
+
+/-- the segment loop terminates within `len + 1` iterations and its segments are ordered, inside the file -/
+theorem segments_ordered (s : SeekOracle) (src : Bytes) (hl : SeekLegal s src) :
+    List.Pairwise (fun a b => a.2 ≤ b.1) (segmentsOf s src.length (src.length + 1) 0) ∧
+    ∀ seg ∈ segmentsOf s src.length (src.length + 1) 0, seg.1 ≤ seg.2 ∧ seg.2 ≤ src.length := by
+  obtain ⟨h1, h2⟩ := segmentsOf_ordered hl (src.length + 1) 0
+  exact ⟨h1, fun seg hseg => (h2 seg hseg).2⟩
+
+/-- every byte that is not zero lies in a reported segment -/
+theorem segments_cover (s : SeekOracle) (src : Bytes) (hl : SeekLegal s src) (i : Nat) (hi : i < src.length)
+    (hnz : src[i]? ≠ some 0) :
+    ∃ seg ∈ segmentsOf s src.length (src.length + 1) 0, seg.1 ≤ i ∧ i < seg.2 :=
+  segmentsOf_cover hl i hi hnz (src.length + 1) 0 (Nat.zero_le _) (by omega)
+
+/-! ### the concrete layout oracle -/
+
+theorem layout_find_data {L : Layout} {src : Bytes} (h : LayoutSound L src) {pos : Nat}
+    {sg : Nat × Nat} (hf : L.segs.find? (fun s => decide (pos < s.2)) = some sg) :
+    pos < sg.2 ∧ sg ∈ L.segs ∧ ∀ i, pos ≤ i → i < sg.1 → ¬ ∃ t ∈ L.segs, t.1 ≤ i ∧ i < t.2 := by
+  obtain ⟨hp, as, bs, hsplit, hbefore⟩ := List.find?_eq_some_iff_append.mp hf
+  have hp' : pos < sg.2 := by simpa using hp
+  have hmem : sg ∈ L.segs := by rw [hsplit]; simp
+  refine ⟨hp', hmem, ?_⟩
+  intro i hpi hlt ⟨t, ht, ht1, ht2⟩
+  have hsorted := h.sorted
+  rw [hsplit, List.pairwise_append, List.pairwise_cons] at hsorted
+  obtain ⟨_, ⟨hafter, _⟩, _⟩ := hsorted
+  rw [hsplit, List.mem_append, List.mem_cons] at ht
+  rcases ht with ht | rfl | ht
+  · have := hbefore t ht
+    simp at this
+    omega
+  · omega
+  · have := hafter t ht
+    have := (h.nonempty sg hmem).1
+    omega
+
+/-- the concrete layout oracle (what the executable model runs) satisfies the SEEK contract -/
+theorem layout_oracle_legal (L : Layout) (src : Bytes) (h : LayoutSound L src) :
+    SeekLegal L.oracle src where
+  data_some := by
+    intro pos d hp hd
+    have hlen := h.len_eq
+    simp only [Layout.oracle, Layout.seekData, if_neg (show ¬ L.len ≤ pos by omega)] at hd
+    split at hd
+    · rename_i sg hf
+      obtain ⟨h1, hmem, hz⟩ := layout_find_data h hf
+      have := h.nonempty sg hmem
+      simp only [Option.some.injEq] at hd
+      subst hd
+      refine ⟨by omega, by omega, ?_⟩
+      intro i hpi hid
+      by_cases hi : i < src.length
+      · exact Or.inl (h.zeros i hi (hz i hpi (by omega)))
+      · exact Or.inr (by omega)
+    · simp at hd
+  data_none := by
+    intro pos hp hd i hpi
+    have hlen := h.len_eq
+    simp only [Layout.oracle, Layout.seekData, if_neg (show ¬ L.len ≤ pos by omega)] at hd
+    split at hd
+    · simp at hd
+    · rename_i hf
+      by_cases hi : i < src.length
+      · refine Or.inl (h.zeros i hi ?_)
+        intro ⟨t, ht, ht1, ht2⟩
+        have := List.find?_eq_none.mp hf t ht
+        simp at this
+        omega
+      · exact Or.inr (by omega)
+  hole_some := by
+    intro pos d hh hp hd hhole
+    have hlen := h.len_eq
+    simp only [Layout.oracle, Layout.seekData, if_neg (show ¬ L.len ≤ pos by omega)] at hd
+    split at hd
+    · rename_i sg hf
+      obtain ⟨h1, hmem, _⟩ := layout_find_data h hf
+      have hne := h.nonempty sg hmem
+      simp only [Option.some.injEq] at hd
+      subst hd
+      simp only [Layout.oracle, Layout.seekHole,
+        if_neg (show ¬ L.len ≤ max pos sg.1 by omega)] at hhole
+      split at hhole
+      · rename_i t ht
+        have htm := List.mem_of_find?_eq_some ht
+        have htp := List.find?_some ht
+        simp only [Option.some.injEq] at hhole
+        subst hhole
+        have := h.nonempty t htm
+        simp at htp
+        omega
+      · rename_i hnone
+        have := List.find?_eq_none.mp hnone sg hmem
+        simp at this
+        omega
+    · simp at hd
+  hole_eof := by
+    intro d hd
+    have hlen := h.len_eq
+    simp only [Layout.oracle, Layout.seekHole, if_pos (show L.len ≤ d by omega)]
+
+/-- `segments_ordered` for the executable layout oracle -/
+theorem layout_segments_ordered (L : Layout) (src : Bytes) (h : LayoutSound L src) :
+    List.Pairwise (fun a b => a.2 ≤ b.1) (segmentsOf L.oracle src.length (src.length + 1) 0) ∧
+    ∀ seg ∈ segmentsOf L.oracle src.length (src.length + 1) 0, seg.1 ≤ seg.2 ∧ seg.2 ≤ src.length := by
+  obtain ⟨h1, h2⟩ := segmentsOf_ordered (layout_oracle_legal L src h) (src.length + 1) 0
+  exact ⟨h1, fun seg hseg => (h2 seg hseg).2⟩
+
+/-- `segments_cover` for the executable layout oracle -/
+theorem layout_segments_cover (L : Layout) (src : Bytes) (h : LayoutSound L src) (i : Nat)
+    (hi : i < src.length) (hnz : src[i]? ≠ some 0) :
+    ∃ seg ∈ segmentsOf L.oracle src.length (src.length + 1) 0, seg.1 ≤ i ∧ i < seg.2 :=
+  segmentsOf_cover (layout_oracle_legal L src h) i hi hnz (src.length + 1) 0 (Nat.zero_le _) (by omega)
+
 end Xcp
